@@ -235,8 +235,9 @@ def r4(ctx):
     # every failing test asks for a new header
     for blk, si, st2, ev in ret_sites(bd, sym):
         if ev[0] == "agg" and ev[2] == "Ok" and variant_name(agg_field(ev, "0")) == "NewHeader":
-            gs = ctx.guards_at(bd, blk.idx)
-            ctx.check(any(g.kind == "rel" for g in gs), "write_cto:NewHeader", "NewHeader is returned on a failing test", bd.where(blk.idx))
+            # reachable only through a failing test (several failing tests may share one `return NewHeader`)
+            fails = [g.edge for g in ctx.gi(bd).all_guards() if not is_tracing(g.macros) and ((g.kind == "rel" and g.op in ("Ne", "Gt", "Lt")) or (g.kind == "is" and g.name == "None"))]
+            ctx.check(bool(fails) and blk.idx not in bd.reachable(0, removed_edges=fails), "write_cto:NewHeader", "NewHeader is returned only through a failing test", bd.where(blk.idx))
     # the cast feeds to_cto_variation
     for c in call_sites(bd, r"ToVariationCto.*::to_cto_variation$"):
         ce = sym.call_expr(c.term)
@@ -288,8 +289,23 @@ def r5(ctx):
                 ok = st.rv["var"] == kind
         ctx.check(ok, "cto:%s:kind" % fn_, "%s yields Time::%s" % (fn_, kind), fb[0].where(line=fb[0].line) if fb else "")
     ib = prog.body("master::extract::extract_measurements_inner")
-    fold = [c for c in ib.calls() if (c.term.callee or "").endswith("::fold")]
-    ctx.check(len(fold) == 1, "cto:fold", "headers are folded with the CTO as accumulator", ib.where(line=ib.line))
+    # the running CTO is threaded through the headers in order: fold(None, |cto, h| handle(cto, h, ..)) or the same as a loop
+    # `cto = handle(cto, h, ..)` - either way handle() receives the accumulator and its result becomes the accumulator
+    hcalls = []
+    for fb_ in family(prog, ib):
+        fs_ = ctx.sym(fb_)
+        for c in call_sites(fb_, r"extract_measurements_inner::handle$"):
+            a0 = fs_.call_expr(c.term)[2][0]
+            hcalls.append((fb_, c, a0))
+    acc_ok = len(hcalls) == 1 and hcalls[0][2][0] in ("var", "param", "capture") and hcalls[0][2][1] == "cto"
+    threaded = False
+    if acc_ok:
+        fb_, c, a0 = hcalls[0]
+        if fb_ is not ib:
+            threaded = any((x.term.callee or "").endswith("::fold") for x in ib.calls()) and c.term.d["d"].is_local() and c.term.d["d"].local == 0
+        else:
+            threaded = c.term.d["d"].is_local() and ib.local_name(c.term.d["d"].local) == "cto" and innermost_loop(ib, c.idx) is not None
+    ctx.check(acc_ok and threaded, "cto:fold", "headers are processed in order with the CTO as accumulator (%s)" % [expr_str(h[2]) for h in hcalls], ib.where(line=ib.line))
     # outstation side: the header object is the namesake of the event time's kind, and the same time becomes the header CTO
     sb = [b for b in prog.bodies.values() if re.search(r"EventWriter::start_new_header::\{closure#1\}$|EventWriter::start_new_header::\{closure#0\}$", b.path)]
     found = 0
